@@ -157,6 +157,7 @@ impl Handler<LaunchRequest> for LaunchRequestHandler {
                 source,
                 src_path,
                 &tr.test_case_name.as_str().into(),
+                conn.shutdown.clone(),
             ) {
                 Ok(adapter) => {
                     conn.create_machine(adapter);
